@@ -85,7 +85,7 @@ func (in *Interp) vsymCall(name string, args []Value, c *ssa.CallCommon) []Value
 	case "Assert":
 		in.obligation(strArg(args[1]), "assert", args[0].(*Term))
 		return nil
-	case "AssertNear":
+	case "AssertNear", "AssertAgree":
 		// |a-b| <= abs + rel*max(|a|,|b|)
 		a, b, abs, rel := args[0].(*Term), args[1].(*Term), args[2].(*Term), args[3].(*Term)
 		in.obligation2(strArg(args[4]), ts.Eq(a, b), in.nearTerm(a, b, abs, rel))
